@@ -979,11 +979,13 @@ namespace awkward {
       return std::make_shared<NumpyArray>(tonum);
     }
     else {
-      ContentPtr next = content_.get()->num(posaxis, depth + 1);
-      Index64 offsets = compact_offsets64(true);
+      ContentPtr listoffsetarray = toListOffsetArray64(true);
+      ListOffsetArray64* raw =
+        dynamic_cast<ListOffsetArray64*>(listoffsetarray.get());
+      ContentPtr next = raw->content().get()->num(posaxis, depth + 1);
       return std::make_shared<ListOffsetArray64>(Identities::none(),
                                                  util::Parameters(),
-                                                 offsets,
+                                                 raw->offsets(),
                                                  next);
     }
   }
